@@ -241,7 +241,9 @@ PROPS = {
                 "Stream trees: the journal spread over an include tree of 1-40 (120) files (wide, below hubs, nested, chains, random, a file included twice; sub-directories, respelled paths), a presence tie "
                 "through all members, half of the cases with a fault at a chosen place (missing / directory / empty / cyclic include, unreadable member, rejected text first / middle / last in a member, "
                 "rejected date or account type, lifecycle violation in a member's last line), one case in eight with members of 60 KB - 6 MB of comments, prices and bookings laid out around the fault; "
-                "in-process and `knut check|print|balance` under KNUT_VERIF_SEED and GOMAXPROCS 1/2/16: an unloadable tree is rejected, otherwise the verdict is the specification's on the union of the directives.",
+                "in-process and `knut check|print|balance` under KNUT_VERIF_SEED and GOMAXPROCS 1/2/16: an unloadable tree is rejected, otherwise the verdict is the specification's on the union of the directives. "
+                "Stream balflags: re-open, timeline, automaton and ledger journals (several accounts per type booked against each other) under 2-4 full `knut balance` flag vectors each (GenBalFlags, then 0-3 features forced on; "
+                "one vector in four is --account/--commodity with --close=false and without -v): exit status 0 iff the specification accepts, whatever the report flags (valued runs that stop on a price are not counted).",
         "assumptions": ["the day grouping of journal.Builder (model Builder.ofList) is exercised through the real loader on every case"],
     },
     "C07": {
